@@ -49,6 +49,10 @@ const (
 	// fully intact": the follower keeps the unverified rest of its log and dataset,
 	// asks for the stream from the verified position and applies it on top
 	findingKeepsTail = "follower-keeps-unverified-tail"
+	// the truncate-and-reload resynchronisation leaves the follower's log buffer in
+	// place: buffered commands are later written behind the truncated prefix, in
+	// the wrong position and uncounted
+	findingKeepsLogBuffer = "follower-truncate-keeps-aofbuf"
 )
 
 func caseSeed(sub string, i int) int {
@@ -261,6 +265,7 @@ type probe struct {
 	status  string // "open": a suspected/known defect; "regression": repaired earlier, must stay repaired; "guard": expected to hold
 	what    string
 	spec    caseSpec
+	custom  func() *outcome // a fixed history that the case runner cannot express
 }
 
 func probes() []probe {
@@ -352,6 +357,11 @@ func probes() []probe {
 					LCmds: [][]string{{"SET", "k1", "late", "POINT", "5", "6"}}}}},
 		},
 		{
+			name: "restart-after-buffered-resync", finding: findingKeepsLogBuffer, status: "open",
+			what:   "follower (log 660 KB) in sync; leader RENAME k3 k4, which sits in the follower's log buffer; a pipelined SLEEP 1.6 / SLEEP 0.8 on the follower keeps the flusher and any client reply away; link cut; the follower reconnects, verifies one window, truncates its log to 510937 bytes and reloads it without emptying the buffer; the buffered RENAME is then written behind the prefix, before the rest of the log that is streamed again",
+			custom: logBufferHistory,
+		},
+		{
 			name: "split-same-length", finding: "", status: "guard",
 			what: "follower detached, both sides then log the same number of bytes (different commands), follower re-attached: the resume position must be found by checksum, not by size",
 			spec: caseSpec{Init: initEmpty, FirstSync: true, Settle: true,
@@ -399,6 +409,10 @@ func TestC06_Probes(t *testing.T) {
 		wg.Add(1)
 		go func(i int) {
 			defer wg.Done()
+			if ps[i].custom != nil {
+				outs[i] = ps[i].custom()
+				return
+			}
 			outs[i] = runCase(&ps[i].spec, runOpts{budget: 30 * time.Second})
 		}(i)
 	}
@@ -435,7 +449,11 @@ func TestC06_Probes(t *testing.T) {
 			continue // one violation (and replay file) per root cause; the others are in the notes
 		}
 		reported[key] = true
-		c.Violation(key, what, p.spec)
+		var replay any = p.spec
+		if p.custom != nil {
+			replay = map[string]string{"custom": p.name}
+		}
+		c.Violation(key, what, replay)
 		t.Errorf("VIOLATION-CANDIDATE key=%s: %s", key, what)
 	}
 }
@@ -509,6 +527,27 @@ func TestReplay(t *testing.T) {
 	}
 	c := ev.New("C06", "replay", "exploration")
 	t.Cleanup(c.Flush)
+	var cu struct {
+		Custom string `json:"custom"`
+	}
+	if json.Unmarshal(doc.Data, &cu) == nil && cu.Custom != "" {
+		// a probe with a fixed history of its own
+		for _, p := range probes() {
+			if p.name == cu.Custom && p.custom != nil {
+				c.Case()
+				out := p.custom()
+				if out.inconclusive != "" {
+					c.Inconclusive("replay: %s", out.inconclusive)
+				}
+				if out.vioKey != "" {
+					c.Violation(out.vioKey, out.vioWhat, cu)
+					t.Errorf("VIOLATION-CANDIDATE key=%s: %s", out.vioKey, out.vioWhat)
+				}
+				return
+			}
+		}
+		t.Fatalf("unknown custom probe %q", cu.Custom)
+	}
 	var cs caseSpec
 	if err := json.Unmarshal(doc.Data, &cs); err != nil {
 		t.Fatalf("bad replay data: %v", err)
